@@ -19,7 +19,33 @@ METHODS = [
     ("expandtabs", ()), ("isalpha", ()), ("isspace", ()), ("index", ("a",)), ("rfind", ("a",)), ("partition", (" ",)), ("rsplit", ()),
     ("rsplit", (" ",)), ("casefold", ()), ("isdigit", ()), ("rpartition", (" ",)), ("center", (5, "ab")), ("removeprefix", ("a",)),
 ]
-SEPS = ["a", " ", "ab", "\n", "  ", "b ", ".", "+", "a."]
+# ... and EVERY public method of str (the proxy, or a native method that replaces it, must answer like str on the text), each with every
+# argument tuple of a pool that str itself accepts for it on a sample text; separators that overlap themselves ('aa' in 'aaa') included.
+# Left out: methods with their own suites or findings (split, splitlines, ljust, rjust, join), and those that do not produce text / text
+# answers (format, format_map, maketrans, encode).
+_ARG_POOL = [(), ("a",), ("aa",), (" ",), ("..",), ("a", "b"), ("aa", "b"), ("aa", ""), (6,), (2,), (7, "*"), ("a", 1), ("aa", 1), ("aa", -1), (" ", 1),
+             (None, 1), ("ab",), ("a", 0, 2), ("aa", 1, 5), (("a", "b"),), ({97: "X", 32: None},), (4,), (True,)]
+_LEFT_OUT = {"split", "splitlines", "ljust", "rjust", "join", "format", "format_map", "maketrans", "encode"}
+
+
+def _all_str_methods():
+    out, seen = [], [m for m in METHODS]
+    for name in sorted(n for n in dir(str) if not n.startswith("_") and n not in _LEFT_OUT):
+        for args in _ARG_POOL:
+            if (name, args) in seen:
+                continue
+            try:
+                getattr("aaa b", name)(*args)
+            except TypeError:
+                continue            # not a call str accepts
+            except Exception:       # noqa: BLE001  (ValueError of index() etc.: str accepts the call)
+                pass
+            out.append((name, args))
+    return out
+
+
+METHODS = METHODS + _all_str_methods()
+SEPS = ["a", " ", "ab", "\n", "  ", "b ", ".", "+", "a.", "aa", ".."]
 # patterns that only mean something as regular expressions (character classes, repetition, alternation, patterns that can match the empty
 # string); (pattern, the same pattern without capturing groups - "capture groups are ignored")
 REGEX_SEPS = [(r"\s+", r"\s+"), (r"\s", r"\s"), (r" +", r" +"), (r"a|b", r"a|b"), (r"[ab.]", r"[ab.]"), (r"(a)(b)?", r"(?:a)(?:b)?"), (r"\n|\.", r"\n|\."),
@@ -187,7 +213,7 @@ def bounded(check, tier, seed):
               "character, join; text/non-text answer compared with str, pieces per character, shared/invented formatting",
               bound="runs<=4, run length<=3", exhaustive=False)
     # (ß ŉ ﬁ İ: characters whose upper / lower / title / casefold mapping has another LENGTH - 'ß'.upper() == 'SS')
-    texts = ["", "a", "ab", " b", "a\n", "Ｅa", "a.b", "straße", "ŉa ﬁ", "İx"]
+    texts = ["", "a", "ab", " b", "a\n", "Ｅa", "a.b", "straße", "ŉa ﬁ", "İx", "aaa b", "x...y", "aaaa"]
     vals = []
     for t1 in texts:
         vals.append([(t1, ATT_POOL[1])])
